@@ -221,3 +221,14 @@ def run(ctx):
 
 def replay(ctx, obj):
     run(ctx)
+
+
+_inner_run = run
+
+
+def run(ctx):  # noqa: F811
+    _inner_run(ctx)
+    # real -j N runs against sequential runs of the same worlds (same tests, same order per layer, same
+    # outcomes and verdict), with --shuffle so that the order is not the discovery order
+    from harness import corr_c03
+    corr_c03.shuffle_modes(ctx, n=4 if ctx.quick() else 60)
